@@ -608,7 +608,14 @@ struct ArgumentParser<T> {
     options: HashMap<&'static str, OptionHandler<T>>, // Long option lookup
     short_options: HashMap<&'static str, OptionHandler<T>>, // Short option lookup
     prefix_options: HashMap<&'static str, PrefixOptionHandler<T>>, // For options like -L, -l, etc.
+    /// How many `@file` response files we're currently nested inside of.
+    response_file_depth: std::cell::Cell<u32>,
 }
+
+/// Response files can reference other response files. We limit how deeply they can nest so that a
+/// file that (directly or indirectly) references itself gives an error rather than overflowing
+/// the stack.
+const MAX_RESPONSE_FILE_DEPTH: u32 = 64;
 
 impl<T: platform::Args> Default for ArgumentParser<T> {
     fn default() -> Self {
@@ -623,6 +630,7 @@ impl<T: platform::Args> ArgumentParser<T> {
             options: HashMap::new(),
             short_options: HashMap::new(),
             prefix_options: HashMap::new(),
+            response_file_depth: std::cell::Cell::new(0),
         }
     }
 
@@ -674,12 +682,23 @@ impl<T: platform::Args> ArgumentParser<T> {
         // TODO @lapla-cogito standardize the interface. @file doesn't use a leading hyphen.
         // Handle `@file`option (recursively) - merging in the options contained in the file
         if let Some(path) = arg.strip_prefix('@') {
+            let depth = self.response_file_depth.get();
+            ensure!(
+                depth < MAX_RESPONSE_FILE_DEPTH,
+                "Response file `{path}` is nested too deeply (does it reference itself?)"
+            );
             let file_args = read_args_from_file(Path::new(path))?;
             let mut file_arg_iter = file_args.iter();
+            self.response_file_depth.set(depth + 1);
+            let mut result = Ok(());
             while let Some(file_arg) = file_arg_iter.next() {
-                self.handle_argument(args, modifier_stack, file_arg, &mut file_arg_iter)?;
+                result = self.handle_argument(args, modifier_stack, file_arg, &mut file_arg_iter);
+                if result.is_err() {
+                    break;
+                }
             }
-            return Ok(());
+            self.response_file_depth.set(depth);
+            return result;
         }
 
         if let Some(stripped) = strip_option(arg) {
